@@ -165,6 +165,14 @@ def session(concepts, seed, sid):
                 rec(f'setitem{key}', lambda: (d.__setitem__(key, rng.random() < .5), state()))
             else:
                 rec('tostring', lambda: (d.tostring(), d.tostring('csv'), d.crc32()))
+        if kind == 2:
+            long_names = [f'{w}{i}' for i in range(80) for w in words[:16]]         # 1 280 names
+            sparse = D(long_names, properties[:3], [tuple(i % 211 == 7 or (j == 1 and i % 389 == 3) for j in range(3))
+                                                    for i in range(len(long_names))])
+            rec('remove_empty_objects-long-axis', lambda: (sparse.remove_empty_objects()[:5], sparse.objects, sparse.bools))
+            sparse_t = D(properties[:3], long_names, [tuple(i % 197 == 5 or (j == 2 and i % 401 == 9) for i in range(len(long_names)))
+                                                      for j in range(3)])
+            rec('remove_empty_properties-long-axis', lambda: (len(sparse_t.remove_empty_properties()), sparse_t.properties))
         if kind == 3 and d.objects and d.properties and not set(d.objects) & set(d.properties):
             rec('context-of-definition', lambda: str(C(*d).lattice))
     return ev, sorted(tags)
